@@ -11,6 +11,7 @@ def run(F, G, tier, seed):
     T = stack.Typing(F, G, CG, "UTAP::DocumentBuilder")
     # operand stacks: a block can leave a surplus (harmless: all access is top-relative) but never a deficit
     stack.check(chk, T, "R-STACK[doc]", "UTAP::DocumentBuilder", emit=("N", "P"))
+    stack.throw_net(chk, F, G, T)
     scopes.stale(chk, F)
     driver.deferred(chk, F, T)
     scopes.edge_owned_frames(chk, F)
